@@ -420,8 +420,10 @@ func genC18(tier string, rng *RNG, w *CaseWriter) {
 		{Kind: "points", Points: []dpointA{{Kind: "full", Names: uris(d1, d2)}}},
 		{Kind: "points", Points: []dpointA{{Kind: "full", Names: uris(d1)}, {Kind: "full", Names: uris(d2)}, {Kind: "full", Names: uris(d3)}}},
 		{Kind: "points", Points: []dpointA{{Kind: "noname"}, {Kind: "full", Names: uris(d2)}}},
-		{Kind: "points", Points: []dpointA{{Kind: "full", Names: []gnameA{{URI: ""}, {URI: d1}}}}},            // non-URI first: the URI after it is ignored
-		{Kind: "points", Points: []dpointA{{Kind: "full", Names: []gnameA{{URI: d1}, {URI: ""}, {URI: d2}}}}}, // URI, non-URI, URI
+		{Kind: "points", Points: []dpointA{{Kind: "full", Names: uris(d3, d1, d2)}}},                              // advertised in an order that is not the lexicographic one
+		{Kind: "points", Points: []dpointA{{Kind: "full", Names: uris(d2)}, {Kind: "full", Names: uris(d1, d1)}}}, // second point first in the alphabet; a location named twice
+		{Kind: "points", Points: []dpointA{{Kind: "full", Names: []gnameA{{URI: ""}, {URI: d1}}}}},                // non-URI first: the URI after it is ignored
+		{Kind: "points", Points: []dpointA{{Kind: "full", Names: []gnameA{{URI: d1}, {URI: ""}, {URI: d2}}}}},     // URI, non-URI, URI
 		{Kind: "points", Points: []dpointA{{Kind: "full", Names: uris(d1)}, {Kind: "relative"}}},
 		{Kind: "points", Points: []dpointA{{Kind: "malformed"}}},
 		{Kind: "points", Points: []dpointA{{Kind: "full", Names: uris(d1)}, {Kind: "malformed"}}},
